@@ -299,3 +299,32 @@ package crypto
 //@   ensures [participants-kept] err == nil ==> samearr(s.participants.data, participants.data) && len(s.participants.data) == len(participants.data) && s.participants.len == participants.len
 //@   ensures err != nil ==> s == nil
 //@   modifies alloc
+
+// ---- BLS12-381 (C02: "this holds for ECDSA, EdDSA and BLS12-381"). The pairing arithmetic is
+// the external kilic/bls12-381 library (trusted: no panic, no effect on replica state). What
+// is proved about the code around it: Verify accepts only a signature with at least one
+// participant, and only if a public key is configured for EVERY claimed participant (so ids
+// outside the configuration never count towards a quorum).
+//@ pure func blskey(b *bls12Base, id hotstuff.ID) bool
+//@ func (BLS12AggregateSignature).Participants
+//@   trusted returns a pointer into its (copied) receiver: the participant set of the signature value
+//@   ensures result != nil && hotstuff.setlen(result) == agg.participants.len && agg.participants.len >= 0 && agg.participants.len <= 4294967296
+//@ func (*bls12Base).publicKey
+//@   trusted looks the replica up in the configuration, checks its proof of possession (external library)
+//@   ensures err == nil ==> pubKey != nil && blskey(bls, id)
+//@   ensures err != nil ==> pubKey == nil
+//@ func (*bls12Base).coreVerify
+//@   trusted pairing check of the external kilic/bls12-381 library
+//@ func (*bls12Base).fastAggregateVerify
+//@   trusted key aggregation and pairing check of the external kilic/bls12-381 library
+//@ func firstParticipant
+//@   trusted first id the participant set passes to its callback
+//@   ensures hotstuff.setlen(participants) >= 1 ==> hotstuff.setmem(participants, result)
+//@   ensures hotstuff.setlen(participants) == 1 ==> (forall x hotstuff.ID :: {hotstuff.setmem(participants, x)} hotstuff.setmem(participants, x) ==> x == result)
+//@ func (*bls12Base).Verify property C02,C09
+//@   requires istype(signature, *BLS12AggregateSignature) ==> as(signature, *BLS12AggregateSignature) != nil
+//@   ghost at call RangeWhile :: emit blsset(op0)
+//@   ensures [every-claimed-participant-is-configured] result == nil && as(signature, *BLS12AggregateSignature).participants.len > 1 ==> tracelen(blsset) == old(tracelen(blsset)) + 1 && (forall x hotstuff.ID :: {hotstuff.setmem(traceev(blsset, 0, old(tracelen(blsset))), x)} hotstuff.setmem(traceev(blsset, 0, old(tracelen(blsset))), x) ==> blskey(bls, x))
+//@   ensures [never-empty] result == nil ==> istype(signature, *BLS12AggregateSignature) && as(signature, *BLS12AggregateSignature).participants.len >= 1
+//@   loop iter0 invariant [keys] *errs == nil && (forall x hotstuff.ID :: {visited(iter0, x)} visited(iter0, x) ==> blskey(bls, x))
+//@   opt noframe true
